@@ -3,6 +3,7 @@
   (line level and file level; the record machine on top of the lines is C12's theorem)
 -/
 import Rbql.Proofs.RoundTrip
+import Rbql.Proofs.RfcAndWarnings
 namespace Rbql
 
 /-- quoted policy: for every good delimiter (single- or multi-character) and every non-empty field
@@ -75,10 +76,78 @@ theorem C10_none_sets_flag (c : WCfg) (st : WState) (fields : List (Option Str))
   · cases hgo; rfl
   · cases hgo; rfl
 
+/-- whitespace policy: `split_whitespace_separated_str` is "split on single spaces and drop the empty
+tokens" (runs of spaces collapse), for every line -/
+theorem C10_whitespace_tokens_spec (s : Str) : wsTokens s [] = (splitOn [SPACE] s).filter (· ≠ []) :=
+  wsTokens_spec s
+
+/-- whitespace policy: non-empty fields without a space, joined by one space, read back unchanged.
+(An empty field or a field with a space is the lossy case; the writer's delimiter count flags the
+latter: `C10_lossy_simple_warns` with `c = SPACE`.) -/
+theorem C10_line_roundtrip_whitespace (fs : List Str) (h : ∀ f ∈ fs, f ≠ [] ∧ SPACE ∉ f) :
+    splitWhitespace false (joinD [SPACE] fs) = fs :=
+  whitespace_roundtrip fs h
+
+/-- quoted_rfc policy, one logical record (fields may contain LF and CR): the written record splits
+back into the fields, without the warning -/
+theorem C10_line_roundtrip_rfc {d : Str} (g : GoodDelim d (d != [SPACE])) (fs : List Str) (hne : fs ≠ [])
+    (hok : ∀ f ∈ fs, FieldOk d f) :
+    smartSplit d .quotedRfc false (joinD d (fs.map (rfcQuoteField d))) = (fs, false) :=
+  line_roundtrip_rfc_smart g fs hne hok
+
+/-- quoted_rfc: the written record always has an even number of quotes, so the reader's parity
+assembly never leaves it open -/
+theorem C10_rfc_written_quote_parity (d : Str) (hd : QUOTE ∉ d) (fs : List Str) :
+    countQuotes (joinD d (fs.map (rfcQuoteField d))) % 2 = 0 :=
+  countQuotes_written_rfc d hd fs
+
+/-- quoted_rfc, whole file through the REAL reader machine (chunked stream, universal newlines,
+quote-parity assembly of physical lines, then the splitter): every table whose fields do not overlap a
+multi-character delimiter, written with `rfc_quote_field` and LF line ends and delivered in ANY chunking
+`pieces`, reads back as the table with the line breaks inside fields normalised to LF — exactly what
+Python's text-mode reader does (CR / CRLF inside a quoted field become LF). Without CR in the fields the
+table comes back identical (`univNewlines_noCR`). -/
+theorem C10_rfc_file_roundtrip {d : Str} (g : GoodDelim d (d != [SPACE])) (hlf : LF ∉ d) (hcr : CR ∉ d)
+    (table : List (List Str)) (hne : ∀ fs ∈ table, fs ≠ [])
+    (hok : ∀ fs ∈ table, ∀ f ∈ fs, FieldOk d (univNewlines f))
+    (c : RCfg) (hchunk : 1 ≤ c.chunk) (hcom : c.comment = none) (henc : c.enc = .none)
+    (pieces : List Str) (hp : ∀ p ∈ pieces, p ≠ [])
+    (htext : pieces.flatten = table.flatMap (fun fs => joinD d (fs.map (rfcQuoteField d)) ++ [LF])) :
+    (allRowsRfc c (totalLen pieces + 1) { stream := pieces }).map (smartSplit d .quotedRfc false) =
+      table.map (fun fs => (fs.map univNewlines, false)) :=
+  rfc_reader_roundtrip g hlf hcr table hne hok c hchunk hcom henc pieces hp htext
+
+/-- … and identical when no field contains a CR -/
+theorem C10_rfc_file_roundtrip_identical {d : Str} (g : GoodDelim d (d != [SPACE])) (hlf : LF ∉ d) (hcr : CR ∉ d)
+    (table : List (List Str)) (hne : ∀ fs ∈ table, fs ≠ [])
+    (hok : ∀ fs ∈ table, ∀ f ∈ fs, FieldOk d f ∧ CR ∉ f)
+    (c : RCfg) (hchunk : 1 ≤ c.chunk) (hcom : c.comment = none) (henc : c.enc = .none)
+    (pieces : List Str) (hp : ∀ p ∈ pieces, p ≠ [])
+    (htext : pieces.flatten = table.flatMap (fun fs => joinD d (fs.map (rfcQuoteField d)) ++ [LF])) :
+    (allRowsRfc c (totalLen pieces + 1) { stream := pieces }).map (smartSplit d .quotedRfc false) =
+      table.map (fun fs => (fs, false)) := by
+  have h := rfc_reader_roundtrip g hlf hcr table hne
+    (fun fs hfs f hf => by rw [univNewlines_noCR f (hok fs hfs f hf).2]; exact (hok fs hfs f hf).1)
+    c hchunk hcom henc pieces hp htext
+  rw [h]
+  apply List.map_congr_left
+  intro fs hfs
+  have : fs.map univNewlines = fs := by
+    conv => rhs; rw [← List.map_id fs]
+    apply List.map_congr_left
+    intro f hf
+    simpa using univNewlines_noCR f (hok fs hfs f hf).2
+  rw [this]
+
 /-- why multi-character delimiters need the overlap hypothesis: `xa`,`b` written with delimiter `aa`
 reads back as `x`,`ab`, silently (model witness; replayed on the real code by the correspondence) -/
 theorem C10_overlap_counterexample :
     splitOn ['a', 'a'] (joinD ['a', 'a'] [['x', 'a'], ['b']]) = [['x'], ['a', 'b']] := by
   simp [joinD, splitOn, findD, List.isPrefixOf]
+
+/-- non-vacuity of the rfc file round trip: two records, a quoted field with a line break, two chunks -/
+example : (allRowsRfc { delim := [','], policy := .quotedRfc, chunk := 4, comment := none, enc := .none } 100
+    { stream := ["a,\"x\ny\"\n".toList, "b,c\n".toList] }).map (smartSplit [','] .quotedRfc false) =
+    [([['a'], ['x','\n','y']], false), ([['b'],['c']], false)] := by decide +kernel
 
 end Rbql
